@@ -630,6 +630,15 @@ class UnitInterp:
                 grp += self._params_in(fn, a, st, depth)
             st.groups.append(frozenset(grp))
             return Bare("none")
+        if ftxt in ("_multiply_units", "_divide_units") and len(e.args) == 2:
+            # the ufunc unit rules return (coefficient, simplified unit) with  u1 (*|/) u2 == coefficient * unit:
+            # the unit alone is the product divided by a numeric coefficient, which the caller has to apply to the data
+            a_, b_ = self.ev(fn, e.args[0], st, depth), self.ev(fn, e.args[1], st, depth)
+            if isinstance(a_, Un) and isinstance(b_, Un):
+                coef = Mono.atom(f"coefficient-split-off-by{ftxt}")
+                m_ = a_.mono * b_.mono if ftxt == "_multiply_units" else a_.mono / b_.mono
+                return Tup([Qn(coef), Un(m_ / coef)])
+            return Unk("unit-rule")
         if ftxt == "get_units":
             v = self.ev(fn, e.args[0], st, depth)
             if isinstance(v, Tup):
